@@ -5,6 +5,7 @@
 import GoSecs.Drv.Secs2
 import GoSecs.Drv.Supervisor
 import GoSecs.Drv.Hsms
+import GoSecs.Drv.Construct
 
 open GoSecs
 
@@ -12,7 +13,8 @@ open GoSecs
 def handlers : List (String → List String → Option String) := [
   Drv.Secs2.handle,
   Drv.Supervisor.handle,
-  Drv.Hsms.handle
+  Drv.Hsms.handle,
+  Drv.Construct.handle
 ]
 
 def dispatch (line : String) : String :=
